@@ -1182,8 +1182,8 @@ void NifFile::TrimTexturePaths() {
 		if (std::regex_search(tex, match, pattern))
 			tex = tex.substr(match[0].length()); // Remove matched string
 
-		// Remove all backslashes from the front
-		tex = std::regex_replace(tex, std::regex("^\\\\+"), "");
+		// Remove all backslashes (and whitespace they were hiding) from the front
+		tex = std::regex_replace(tex, std::regex("^[\\\\\\s]+"), "");
 
 		if (!hdr.GetVersion().IsOB() && !hdr.GetVersion().IsSpecial() && is_relative_path(tex)) {
 			// If the path doesn't start with "textures\", add it to the front
